@@ -61,7 +61,10 @@ Inductive event :=
 | EApply0 (fam : nat) (r : rid) (p : pos)
 | EInline (a : nat) (b e : pos)                 (* apply<A...> / if_apply<R,A...> *)
 | EInline0 (a : nat)                            (* apply0<A...> *)
-| EStNew (r : rid) (p : pos) | EStSuccess (r : rid) (p : pos) | EStDrop (r : rid).
+| EStNew (r : rid) (p : pos) | EStSuccess (r : rid) (p : pos) | EStDrop (r : rid)
+(* ghost trace of every Control< Rule >::match invocation (enabled or not): modes as passed, cursor before/after *)
+| EEnter (ctl : nat) (r : rid) (a m : bool) (p : pos)
+| EExit (ctl : nat) (r : rid) (o : option bool) (p : pos).      (* Some true/false = returned; None = exception passed through *)
 
 Inductive outcome := Ok | Fail | Exc (e : exn).
 Inductive result := Res (o : outcome) (c : cursor) (evs : list event) | Oof | Err.
@@ -72,6 +75,12 @@ Definition append (x : result) (evs : list event) : result :=
   match x with Res o c e1 => Res o c (e1 ++ evs) | y => y end.
 Definition bind (x : result) (k : cursor -> result) : result :=
   match x with Res Ok c evs => prepend evs (k c) | y => y end.
+Definition okind (o : outcome) : option bool := match o with Ok => Some true | Fail => Some false | Exc _ => None end.
+(* Control< Rule >::match< A, M >( in ) seen from outside *)
+Definition traced (ctl : nat) (r : rid) (a m : bool) (c : cursor) (x : result) : result :=
+  match x with
+  | Res o c' evs => Res o c' (EEnter ctl r a m (cpos c) :: evs ++ [EExit ctl r (okind o) (cpos c')])
+  | y => y end.
 Definition ok_or_err (o : option cursor) : result :=
   match o with Some c => Res Ok c [] | None => Err end.
 
@@ -532,10 +541,11 @@ Fixpoint eval (f : nat) (d : dyn) (r : rid) (c : cursor) {struct f} : result :=
       let body := eval_head C (eval f') f' r (nhead nd) (nsubs nd) in
       let plain (ak : akind) (d' : dyn) (c' : cursor) :=
         if nenabled nd then match_hpp C ak body d' r c' else body d' c' in
-      match acts C (dAct d) r with
-      | AKMatch m => action_match (eval f') (plain AKNone) (nenabled nd) m d r c
-      | ak => plain ak d c
-      end
+      traced (dCtl d) r (dA d) (dM d) c
+        match acts C (dAct d) r with
+        | AKMatch m => action_match (eval f') (plain AKNone) (nenabled nd) m d r c
+        | ak => plain ak d c
+        end
     end
   end.
 
